@@ -1,0 +1,99 @@
+package netceptor
+
+import (
+	"crypto/sha256"
+	"encoding/hex"
+	"encoding/json"
+	"math"
+	"sort"
+)
+
+// Helpers for the verification hooks (pkg/verifhook). They are only called
+// from code guarded by verifhook.On, so they cost nothing in normal builds.
+
+func verifCopyCosts(m map[string]float64) map[string]float64 {
+	c := make(map[string]float64, len(m))
+	for k, v := range m {
+		c[k] = v
+	}
+
+	return c
+}
+
+func verifCopyKnown(m map[string]map[string]float64) map[string]map[string]float64 {
+	c := make(map[string]map[string]float64, len(m))
+	for k, v := range m {
+		c[k] = verifCopyCosts(v)
+	}
+
+	return c
+}
+
+func verifCopyTable(m map[string]string) map[string]string {
+	c := make(map[string]string, len(m))
+	for k, v := range m {
+		c[k] = v
+	}
+
+	return c
+}
+
+func verifFiniteCosts(m map[string]float64) map[string]float64 {
+	c := make(map[string]float64, len(m))
+	for k, v := range m {
+		if v < math.MaxFloat64 {
+			c[k] = v
+		}
+	}
+
+	return c
+}
+
+func verifFloodTargets(conns map[string]*connInfo, exclude string) []string {
+	t := make([]string, 0, len(conns))
+	for c := range conns {
+		if c != exclude {
+			t = append(t, c)
+		}
+	}
+	sort.Strings(t)
+
+	return t
+}
+
+func verifInfo(ni *nodeInfo) map[string]uint64 {
+	if ni == nil {
+		return nil
+	}
+
+	return map[string]uint64{"epoch": ni.Epoch, "seq": ni.Sequence}
+}
+
+func verifSha(data []byte) string {
+	sum := sha256.Sum256(data)
+
+	return hex.EncodeToString(sum[:8])
+}
+
+// verifMsgSummary describes a wire message: its type and, for control messages, the decoded body.
+func verifMsgSummary(message []byte) map[string]any {
+	out := map[string]any{"len": len(message)}
+	if len(message) == 0 {
+		return out
+	}
+	out["type"] = int(message[0])
+	switch message[0] {
+	case MsgTypeRoute, MsgTypeServiceAdvertisement:
+		var body any
+		if json.Unmarshal(message[1:], &body) == nil {
+			out["body"] = body
+		}
+	case MsgTypeData:
+		if len(message) >= 36 {
+			out["ttl"] = int(message[1])
+			out["sha"] = verifSha(message[36:])
+		}
+	}
+
+	return out
+}
